@@ -76,6 +76,12 @@ Definition scenario_inputs (scn : N) : list input :=
            EvActorStopping true 200 (Some 300) (Some ErrClosed);
            TickReconnectDue 300; EvConnAttemptFailed true 300 ErrRefused;
            TickReconnectDue 300; CmdNewConnSca (outbound 1) true; EvPeerIdentity true (Some 300)]
+  | 16 => [CmdUserOther; CmdNewConnSca (outbound 0) true;       (* connect() called twice for one endpoint; both closed by the peer *)
+           CmdUserOther; CmdNewConnSca (outbound 1) true;
+           EvActorStopping true 200 (Some 300) (Some ErrClosed);
+           EvActorStopping true 201 (Some 300) (Some ErrClosed);
+           TickReconnectDue 300; EvConnAttemptFailed true 300 ErrRefused;
+           TickReconnectDue 300; CmdNewConnSca (outbound 2) true; EvPeerIdentity true (Some 300)]
   | 14 => concat (map (fun k => inbound_fault (N.of_nat k) false (if Nat.even k then ErrReset else ErrProtocol)) (seq 0 120))
           (* the same burst against a polling socket (RCVTIMEO = 0) on a 4-worker runtime *)
   | 30 => concat (map (fun k => [EvActorStarted; EvInprocRequest 8 false true true (inbound (N.of_nat k));
@@ -90,7 +96,7 @@ Definition has_ep (e : endpoint) (s : core) : bool :=
 Definition iso_row (scn : N) (s : core) : list N :=
   let up := phase_eqb (ph s) Running in
   match scn with
-  | 12 | 15 => (* traffic resumed: a live outbound session for the target again, back-off reset *)
+  | 12 | 15 | 16 => (* traffic resumed: a live outbound session for the target again, back-off reset *)
       [scn; b2n (up && existsb (fun x => (e_uri x =? 300) && e_outbound x) (eps s)
                  && match recon_get 300 (recon s) with Some (0, None) => true | _ => false end);
        b2n up]
